@@ -42,6 +42,7 @@ class Contract:
         self.total = g('total', False)          # no exception allowed at all
         self.modifies = g('modifies', [])       # fields of self havocked by a call
         self.updates = g('updates', {})         # {field of self: spec function of the PRE-state} (mutators)
+        self.stop_after = g('stop_after', ())   # loop-invariant names after whose exit the path ends (phase proofs)
         self.tier = g('tier', 'quick')          # 'thorough': verified in the thorough tier only (slow)
         self.trusted = g('trusted', False)      # assumed at call sites, body not verified (listed)
         self.c03 = g('c03', False)              # also prove Truthful(result) (C03 construction site)
@@ -76,9 +77,25 @@ def lemma(name, props=()):
     return deco
 
 
-def loop_invariant(qual, ordinal, havoc):
+REPRESENTATIONS = {}    # (qualname, local) -> symbolic representation of a container
+EXIT_ASSERTS = {}       # qualname -> function over the locals at return
+
+
+def loop_invariant(qual, ordinal, havoc, ghost=None, ghost_init=None, ghost_step=None):
     def deco(fn):
-        LOOPS[(qual, ordinal)] = LoopSpec(fn, havoc)
+        LOOPS[(qual, ordinal)] = LoopSpec(fn, havoc, ghost=ghost, ghost_init=ghost_init, ghost_step=ghost_step)
+        return fn
+    return deco
+
+
+def represent(qual, **locals_):
+    for name, rep in locals_.items():
+        REPRESENTATIONS[(qual, name)] = rep
+
+
+def exit_assert(qual):
+    def deco(fn):
+        EXIT_ASSERTS[qual] = fn
         return fn
     return deco
 
@@ -156,6 +173,8 @@ def make_interp(timeout_ms=3000, extended=False):
     src = extract.SourceIndex()
     I = Interp(ex, src, REGISTRY, extended=extended)
     I.loop_specs = LOOPS
+    I.representations = REPRESENTATIONS
+    I.exit_asserts = EXIT_ASSERTS
     from . import vecmodel, builtins as _B
     vecmodel.install(REGISTRY)
     VSeq.length_hook = lambda s: _B.filtered_length(I, s)
@@ -182,6 +201,7 @@ def verify_contract(c, timeout_ms=10000, explore_timeout_ms=3000):
         rep.source = {}
         return rep
     I = make_interp(explore_timeout_ms, c.extended)
+    I.stop_after_loops = set(c.stop_after)
     prop = c.props[0] if c.props else 'C??'
     short = c.qual.replace('serif.', '', 1)
     try:
